@@ -209,9 +209,34 @@ def mon_cancel_target(sc):
             cancelled_ids.add(f[3])
         if f[0] == "env" and (f[1] == "callstop" or (f[1] == "feed" and f[2] in ("err", "msgeof"))):
             stopped = True
+        if f[0] == "env" and f[1] == "basectx":
+            stopped = True      # the base context of every request context has ended
         if f[0] == "o" and f[1] in ("start", "gate") and f[3] == "1":
             if not stopped and tok_id.get(f[2]) not in cancelled_ids:
                 return "context of handler %s (id %s) cancelled although nobody cancelled that id" % (f[2], tok_id.get(f[2]))
+    return None
+
+
+PROTOCOL_CODES = {"-32700", "-32600", "-32601", "-32097", "-32096"}
+
+
+def mon_error_origin(sc):
+    """C01/C06/C14: an error response to a call carries either a protocol error of the server (parse error,
+    invalid request, method not found, cancellation, deadline) or the error its handler returned - never
+    anything else (for instance the cause of a cancelled context instead of the cancellation error)."""
+    handler_errs = set()
+    for l in sc["lines"]:
+        f = l.split("\t")
+        if f[0] == "env" and f[1] == "feed" and f[2] == "raw":
+            return None
+        if f[0] == "env" and f[1] == "gate" and len(f) > 5 and f[3] == "err":
+            handler_errs.add((f[4], f[5]))
+        if f[0] == "o" and f[1] == "send" and len(f) > 4:
+            for r in f[4].split(";"):
+                p = r.split(",")
+                if len(p) >= 4 and p[1] == "E" and p[2] not in PROTOCOL_CODES and (p[2], p[3]) not in handler_errs:
+                    return "error response %s (code %s) for id %s is neither a protocol error nor what a handler returned" % (
+                        p[3], p[2], p[0])
     return None
 
 
@@ -271,11 +296,11 @@ def mon_push(sc):
 
 
 MONITORS = {
-    "c01": [mon_start_once, mon_response_once, mon_faults],
+    "c01": [mon_start_once, mon_response_once, mon_error_origin, mon_faults],
     "c02": [mon_start_once, mon_response_once, mon_faults],
     "c03": [mon_barrier, mon_faults],
-    "c06": [mon_concurrency, mon_faults],
-    "c07": [mon_cancel_target, mon_faults],
+    "c06": [mon_concurrency, mon_error_origin, mon_faults],
+    "c07": [mon_cancel_target, mon_error_origin, mon_faults],
     "c08": [mon_wait_status, mon_faults],
     "c09": [mon_push, mon_faults],
     "c10": [mon_faults],
